@@ -10,7 +10,7 @@ from geolib import call_impl
 from proto import ET, dec_bools, run_driver
 
 ID = "C16"
-LEAN_FILES = ["Geo/Props/C16.lean"]
+LEAN_FILES = ["Geo/Props/C16.lean", "Geo/Props/C16b.lean"]
 RULE = ("simple polygons with 3-5 vertices on the 4x4 lattice (quick: random sample; thorough: every one up to translation) x every "
         "lattice and half-lattice query point of [-1,4]^2 (edges, vertices, extensions of edges, level with a vertex), every rotation "
         "and reversal of the vertex cycle; Triangle.contains on the triangles; copies embedded in 3-space under rational affine maps with "
@@ -91,6 +91,15 @@ def polygon_stream(ctx, npoly, exhaustive):
         for qx, qy in QUERIES:
             reqs.append("spec.inpolygon " + " ".join(vt(v) for v in vs) + " " + vt((qx, qy)))
     answers = run_driver(reqs, timeout=3000)
+    # the executable model of PolygonTensor.contains (Geo/Shapes.lean over the regenerated Geo/Gen/Shapes.lean) on the same cases:
+    # T16_3_polygon_contains says it equals the specification; the run confirms the compiled definitions do (and thereby ties
+    # the model, not only the specification, to the implementation compared below)
+    manswers = run_driver([r.replace("spec.inpolygon", "m.polycontains", 1) for r in reqs], timeout=3000)
+    for r_, a_, m_ in zip(reqs, answers, manswers):
+        if a_ != m_:
+            ctx.disagree("C16:model-vs-spec:polygon", r_, a_, m_, replay=[r_])
+            break
+    ctx.count("model-vs-spec:polygon", len(reqs))
     nq = len(QUERIES)
     Q2 = g.PointCollection(np.array([[float(x), float(y), 1.0] for x, y in QUERIES]))
     for pi, vs in enumerate(polys):
@@ -125,6 +134,10 @@ def polygon_stream(ctx, npoly, exhaustive):
                     ctx.disagree(f"C16:polygon:contains-single:{classify(vs, QUERIES[idx])}", f"{desc0} {vname} query={qx},{qy}", bool(exp[idx]), rs[1:3], replay=[desc0])
                     break
             if len(vv) == 3:
+                mt = run_driver(["m.tricontains " + " ".join(vt(v) for v in vv) + " " + vt(q) for q in QUERIES])
+                mexp = np.array([bool(dec_bools(a.split(" ")[1])) for a in mt])
+                if not np.array_equal(mexp, exp):
+                    ctx.disagree("C16:model-vs-spec:triangle", f"triangle {vv}", exp.astype(int).tolist(), mexp.astype(int).tolist(), replay=[desc0])
                 tri = call_impl(lambda: g.Triangle(*P))
                 rt = call_impl(lambda: tri[1].contains(Q2)) if tri[0] == "ok" else tri
                 ctx.count("triangle:" + vname)
@@ -224,6 +237,14 @@ def segment_stream(ctx, n):
             reqs.append((f"spec.onray {vt(a)} {vt(d)} {vt(q)}" if ray else f"spec.onsegment {vt(a)} {vt(b)} {vt(q)}"))
         todo.append((dim, a, b, d, ray, qs))
     answers = run_driver(reqs)
+    mreqs = [r.replace("spec.onsegment", "m.segcontains", 1) for r in reqs if r.startswith("spec.onsegment") and r.count(":2:") == 3]
+    mans = dict(zip(mreqs, run_driver(mreqs))) if mreqs else {}
+    for r_, a_ in zip(reqs, answers):
+        k_ = r_.replace("spec.onsegment", "m.segcontains", 1)
+        if k_ in mans and mans[k_] != a_:
+            ctx.disagree("C16:model-vs-spec:segment", r_, a_, mans[k_], replay=[r_])
+            break
+    ctx.count("model-vs-spec:segment", len(mreqs))
     pos = 0
     for dim, a, b, d, ray, qs in todo:
         exp = np.array([bool(dec_bools(x.split(" ")[1])) for x in answers[pos:pos + len(qs)]])
